@@ -712,12 +712,23 @@ func TestC06(t *testing.T) {
 		{run(nocut, buzMin+200), lit(zeroWindow(r))},                                                    // hit exactly at end of input
 		{run(nocut, buzMin+1000), lit(zeroWindow(r)[:31])},
 	}
-	if e.Thorough() || r.Intn(2) == 0 {
-		crafted = append(crafted, []seg{run(nocut, buzMax-32), lit(zeroWindow(r)), run(nocut, buzMin-32), lit(zeroWindow(r)), run(nocut, 100)}) // forced at max although a window ends there
-	} else {
-		crafted = append(crafted, []seg{run(nocut, buzMax-33), lit(zeroWindow(r)), run(nocut, 1000)}) // cut at max-1
+	// the forced cut at max costs ~400k hash steps inside Coq: always in the thorough tier, one run in three in the quick tier
+	maxCases := [][]seg{
+		{run(nocut, buzMax-32), lit(zeroWindow(r)), run(nocut, buzMin-32), lit(zeroWindow(r)), run(nocut, 100)}, // forced at max although a window ends there
+		{run(nocut, buzMax-33), lit(zeroWindow(r)), run(nocut, 1000)},                                            // cut at max-1
 	}
-	for k := 0; k < e.Pick(2, 30); k++ {
+	if !e.Thorough() {
+		// quick tier: the three boundary inputs plus three of the others
+		rest := crafted[3:]
+		r.Shuffle(len(rest), func(i, j int) { rest[i], rest[j] = rest[j], rest[i] })
+		crafted = crafted[:6]
+		if r.Intn(3) == 0 {
+			crafted = append(crafted, maxCases[r.Intn(2)])
+		}
+	} else {
+		crafted = append(crafted, maxCases...)
+	}
+	for k := 0; k < e.Pick(1, 30); k++ {
 		// random placement of 1..3 windows shortly after min
 		var ss []seg
 		ss = append(ss, run(nocut, buzMin-32+r.Intn(1500)))
